@@ -879,6 +879,26 @@ def capi_sessions(tier, seed):
          S(stmt(parts=[m_match(chain([npat("n", ["X"])], []))], updates=[u_delete(["n"], detach=True)])),
          S(stmt(updates=[u_merge_node("n", "X", "k", 1, oncreate=("again", True))]))],
     ]
+    # several statements of one transaction writing the same committed entity (no read-your-writes needed)
+    hub = lambda: m_match(chain([npat("h", ["Hub"])], []))
+    rel = lambda: m_match(chain([npat("h", ["Hub"]), npat("s", ["Spoke"], {"p": 2})], [("r", "L", "out")]))
+
+    def u_remove(var, key):
+        return {"t": "remove", "items": [{"k": "remprop", "var": var, "key": key}]}, "REMOVE %s.%s" % (var, key)
+
+    def u_set_label(var, label):
+        return {"t": "set", "items": [{"k": "label", "var": var, "labels": [label]}]}, "SET %s:%s" % (var, label)
+    scripts24 += [
+        [S(stmt(parts=[hub()], updates=[u_set("h", "v", 1)])), S(stmt(parts=[hub()], updates=[u_set("h", "v", 2)]))],
+        [S(stmt(parts=[hub()], updates=[u_set("h", "v", 1)])), S(stmt(parts=[hub()], updates=[u_set("h", "w", 2)])),
+         S(stmt(parts=[hub()], updates=[u_set("h", "v", 3)]))],
+        [S(stmt(parts=[hub()], updates=[u_set("h", "p", 9)])), S(stmt(parts=[hub()], updates=[u_remove("h", "p")]))],
+        [S(stmt(parts=[hub()], updates=[u_remove("h", "p")])), S(stmt(parts=[hub()], updates=[u_set("h", "p", 9)]))],
+        [S(stmt(parts=[rel()], updates=[u_set("r", "w", 1)])), S(stmt(parts=[rel()], updates=[u_set("r", "w", 2)]))],
+        [S(stmt(parts=[hub()], updates=[u_set_label("h", "Extra")])), S(stmt(parts=[hub()], updates=[u_set("h", "v", 1)])),
+         S(stmt(parts=[hub()], updates=[u_create(chain([npat("h"), npat("z", ["New"])], [("", "L", "out")]))]))],
+        [S(stmt(parts=[hub()], updates=[u_set("h", "v", None)])), S(stmt(parts=[hub()], updates=[u_set("h", "v", "again")]))],
+    ]
     c24 = []
     for i, sc in enumerate(scripts24):
         for end in ("commit", "rollback"):
